@@ -79,6 +79,22 @@ pub fn exec_oracle(kind: &str, fields: &[&str]) -> String {
             }
             "oracle pass".to_string()
         }
+        "S_C09G" => {
+            // a grid name that leads to something that is not a file is a grid that is not found, and is found
+            // not to be there at once (the workers cap their memory, which turns an endless read into a slow error:
+            // the clock tells the two apart)
+            let def = unescape(fields[0]);
+            let t0 = std::time::Instant::now();
+            let mut ctx = Plain::new();
+            let r = ctx.op(&def);
+            let dt = t0.elapsed();
+            match r {
+                Ok(_) => format!("oracle FAIL {def} instantiates"),
+                Err(e) if err_class(&e) != "NotFound" => format!("oracle FAIL {def} is refused as {} instead of NotFound", err_class(&e)),
+                Err(_) if dt.as_millis() > 500 => format!("oracle FAIL {def} takes {} ms to refuse (something was read that is not a file)", dt.as_millis()),
+                Err(_) => "oracle pass".to_string(),
+            }
+        }
         "S_C18X" => {
             // file based macros are looked for in ./geodesy first and in the user's data directory next, in each of them
             // as a file of their own first and as an item of the register next; a register that lacks the item does
